@@ -579,7 +579,10 @@ def procStep (st0 : ProcEng) (t : Tokens) (impl : Option String) : ProcEng × St
         (if (kvGet (tokenize line) "returned") == some "1" then [] else ["C11 shutdown: the final flush did not return"]) ++
         (if (kvGet (tokenize line) "early") == some "1" then ["C11 shutdown: the final flush started before the processor loop had stopped (it was still aggregating a transaction)"] else [])
       else []
-    let f5 := match (kvGet (tokenize line) "badjson").bind String.toNat? with
+    let f6 := match kvGet (tokenize line) "changed" with
+      | some c => [s!"C01 proc: the {c} container handed to a request changed while the request was in flight (the live harvest and the detached one share state)"]
+      | none => []
+    let f5 := f6 ++ match (kvGet (tokenize line) "badjson").bind String.toNat? with
       | some n => if n > 0 then ["C08 payload: a request body sent to the collector is not valid JSON"] else []
       | none => []
     let f4 := f5 ++ if line == "processor-crashed" then ["C10 containment: a message from an agent terminated the processor goroutine (the worker exits, every buffered harvest is lost)"]
